@@ -29,6 +29,16 @@ def _run(ob_json):
     return run_ob(ob_json)
 
 
+def _replay(args):
+    """runs in a pool process: the harness's independent replay of one candidate"""
+    modname, r = args
+    mod = importlib.import_module(modname)
+    try:
+        return mod.replay(r)
+    except Exception as e:  # noqa: BLE001
+        return {"reproduced": False, "what": f"replay raised {type(e).__name__}: {e}", "trace": traceback.format_exc(limit=4)}
+
+
 def load_known():
     p = os.path.join(VERIF, "known_findings.json")
     if not os.path.exists(p):
@@ -119,14 +129,26 @@ def main(argv=None):
     spurious = 0
     replayed = 0
     rep_dir = os.path.join(VERIF, "evidence", "replays")
-    for r in results:
-        if r["verdict"] not in ("candidate", "side-fail"):
-            continue
+    cands = [r for r in results if r["verdict"] in ("candidate", "side-fail")]
+    outs = {}
+    if len(cands) > 2:
+        # many candidates (a badly broken tree): replay them in parallel, each in its own process
+        with ctx.Pool(max(1, min(args.jobs, len(cands))), maxtasksperchild=8) as pool:
+            futs = [(id(r), pool.apply_async(_replay, ((f"harness.{pid}", r),))) for r in cands]
+            for key, fut in futs:
+                try:
+                    outs[key] = fut.get(timeout=1800)
+                except Exception as e:  # noqa: BLE001
+                    outs[key] = {"reproduced": False, "what": f"replay did not finish: {type(e).__name__}: {e}"}
+    for r in cands:
         replayed += 1
-        try:
-            out = mod.replay(r)
-        except Exception as e:  # noqa: BLE001
-            out = {"reproduced": False, "what": f"replay raised {type(e).__name__}: {e}", "trace": traceback.format_exc(limit=4)}
+        if id(r) in outs:
+            out = outs[id(r)]
+        else:
+            try:
+                out = mod.replay(r)
+            except Exception as e:  # noqa: BLE001
+                out = {"reproduced": False, "what": f"replay raised {type(e).__name__}: {e}", "trace": traceback.format_exc(limit=4)}
         r["replay"] = out
         if not out or not out.get("reproduced"):
             spurious += 1
